@@ -215,6 +215,15 @@ func cmdBinCases(args []string) {
 			stats["operand-stream-unavailable"]++
 			continue
 		}
+		if nestedOperand(b) && len(b.VectorMatching.Include) > 0 && oneSideSignatureCollision(b, ls.series, rs.series) {
+			// The series of an operand that is itself a join are numbered in Go map order, anew for every
+			// instantiation: the stream recorded here and the operand of the query executed above may list
+			// them differently. The included labels are copied from the first "one"-side series of a
+			// signature, so with two such series of one signature the expected result is not a function
+			// of the recorded streams.
+			stats["nested-operand-order-dependent"]++
+			continue
+		}
 		aligned := true
 		for i := range ls.steps {
 			if ls.steps[i].t != rs.steps[i].t {
@@ -318,6 +327,39 @@ func cmdBinCases(args []string) {
 		parts[i] = fmt.Sprintf("%q: %d", k, stats[k])
 	}
 	fmt.Printf("{%s}\n", strings.Join(parts, ", "))
+}
+
+func nestedOperand(b *parser.BinaryExpr) bool {
+	for _, side := range []parser.Expr{b.LHS, b.RHS} {
+		nested := false
+		parser.Inspect(side, func(n parser.Node, _ []parser.Node) error {
+			if _, ok := n.(*parser.BinaryExpr); ok {
+				nested = true
+			}
+			return nil
+		})
+		if nested {
+			return true
+		}
+	}
+	return false
+}
+
+func oneSideSignatureCollision(b *parser.BinaryExpr, lhs, rhs []labels.Labels) bool {
+	for i, side := range [][]labels.Labels{lhs, rhs} {
+		if !mustBeUnique(b.VectorMatching.Card, i) {
+			continue
+		}
+		seen := map[string]string{}
+		for _, l := range side {
+			sg := sigOf(l, b.VectorMatching)
+			if prev, dup := seen[sg]; dup && prev != l.String() {
+				return true
+			}
+			seen[sg] = l.String()
+		}
+	}
+	return false
 }
 
 func init() { commands["bincases"] = cmdBinCases }
